@@ -170,7 +170,10 @@ def eval_spec(spec):
     try:
         r, msg, lobj, aobj, aopt = L.run_lme(qt, empi, fam, "pgdb", **opt)
     except Exception as e:  # noqa
-        viol(f"C11/pgdb/{kind}/raises", f"{fam} {mode}: {type(e).__name__}: {e}")
+        key = "-".join("".join(ch if ch.isalnum() else " " for ch in str(e)).split()[:4]).lower()
+        lk = "relative-entropy" if fam in ("re", "fre") else "squared-error"
+        viol(f"C11/pgdb/raises/{type(e).__name__}:{key}/{lk}", f"{fam} {mode} on {spec['sys']} {kind} para={spec['para']}: "
+             f"{type(e).__name__}: {str(e)[:300]}")
         out["t"] = time.time() - out["t"]; return out
     res = r.detailed_results[0]
     xhat = np.array(r.estimated_var, dtype=float)
